@@ -46,6 +46,8 @@ def queryChar (c : Char) : Bool := pchar c || c == '/' || c == '?'
 def regNameChar (c : Char) : Bool := unreserved c || subDelim c
 def userinfoChar (c : Char) : Bool := unreserved c || subDelim c || c == ':' || c == '%'
 def literalChar (c : Char) : Bool := isHexC c || c == ':' || c == '.'
+/-- the delimiters that end the authority (RFC 3986 §3.2) -/
+def isDelim (c : Char) : Bool := c == '/' || c == '?' || c == '#'
 
 /-- port text → value: empty = absent; otherwise decimal 1…65535. -/
 inductive PortV where
@@ -83,6 +85,34 @@ def hostPort (v6ok : Str → Bool) (hp : Str) : Option (Str × PortV) :=
 def isWs (s : Str) : Bool := s == "ws".toList
 def isWss (s : Str) : Bool := s == "wss".toList
 
+/-- resource = path ("/" if empty) ++ "?" ++ query when there is one. -/
+def resource (path query : Str) : Str :=
+  let r0 := if path.isEmpty then ['/'] else path
+  if query.isEmpty then r0 else r0 ++ '?' :: query
+
+/-- the verdict on `scheme "://" auth tail` for a ws/wss scheme (`auth` = up to the first of
+    "/?#", `tail` = the rest). -/
+def classifyHier (v6ok : Str → Bool) (secure : Bool) (auth tail : Str) : Verdict :=
+  -- user-info ends at the last "@"; without one, `hp` is the whole authority
+  let (ui, hasAt, hp) := rpartition '@' auth
+  if hp.isEmpty || (hp.head? == some ':' && (hp.drop 1).all isDigitC) then .refuse   -- no host
+  else if hasAt && !ui.all userinfoChar then .unconstrained
+  else
+    match hostPort v6ok hp with
+    | none => .unconstrained
+    | some (_, .bad) => .unconstrained
+    | some (host, pv) =>
+      let beforeFrag := tail.takeWhile (· != '#')
+      let path := beforeFrag.takeWhile (· != '?')
+      let query := (beforeFrag.dropWhile (· != '?')).drop 1
+      let frag := (tail.dropWhile (· != '#')).drop 1
+      if path.all pathChar && query.all queryChar && frag.all queryChar then
+        let port := match pv with
+          | .value n => n
+          | _ => if secure then 443 else 80
+        .target ⟨host, port, resource path query, secure⟩
+      else .unconstrained
+
 def classify (v6ok : Str → Bool) (u : Str) : Verdict :=
   if !u.contains ':' then .refuse                                 -- no scheme separator
   else
@@ -91,30 +121,8 @@ def classify (v6ok : Str → Bool) (u : Str) : Verdict :=
     if !(isWs scheme || isWss scheme) then .refuse                -- another scheme
     else match rest with
       | '/' :: '/' :: body =>
-        let auth := body.takeWhile (fun c => !(c == '/' || c == '?' || c == '#'))
-        let tail := body.dropWhile (fun c => !(c == '/' || c == '?' || c == '#'))
-        let (ui, hasAt, hp') := rpartition '@' auth               -- user-info ends at the last "@"
-        let hp := if hasAt then hp' else auth
-        if hp.isEmpty || (hp.head? == some ':' && (hp.drop 1).all isDigitC) then .refuse   -- no host
-        else if hasAt && !ui.all userinfoChar then .unconstrained
-        else
-          match hostPort v6ok hp with
-          | none => .unconstrained
-          | some (_, .bad) => .unconstrained
-          | some (host, pv) =>
-            let beforeFrag := tail.takeWhile (· != '#')
-            let path := beforeFrag.takeWhile (· != '?')
-            let query := (beforeFrag.dropWhile (· != '?')).drop 1
-            let frag := (tail.dropWhile (· != '#')).drop 1
-            if path.all pathChar && query.all queryChar && frag.all queryChar then
-              let secure := isWss scheme
-              let port := match pv with
-                | .value n => n
-                | _ => if secure then 443 else 80
-              let r0 := if path = [] then ['/'] else path
-              let r := if query = [] then r0 else r0 ++ '?' :: query
-              .target ⟨host, port, r, secure⟩
-            else .unconstrained
+        classifyHier v6ok (isWss scheme) (body.takeWhile (fun c => !isDelim c))
+          (body.dropWhile (fun c => !isDelim c))
       | _ => .refuse                                              -- no "//": no authority, no host
 
 /-! ### the address loop
